@@ -11,6 +11,7 @@
 From Coq Require Import List Arith NArith Bool ZArith.
 From NngV Require Import Gen.Consts Proto.Common Proto.ReqRepBacktrace Proto.ReqModel Proto.RepModel Proto.XReqModel Proto.XRepModel
   Proto.ReqRepProofs Proto.ReqProofs Proto.RepProofs Proto.XReqRepProofs Proto.ReqIdsProofs.
+From NngV Require Proto.PollModel Proto.PollReq.
 Import ListNotations.
 
 (* ---- REQ ---- *)
@@ -225,10 +226,16 @@ Theorem req_poll_mirror_refuted :
   poll_r (req_poll s) = Some true /\ req_step fx_pinned s (PRecv None 9%N true) = (s, [Complete 9%N E_AGAIN None]).
 Proof. exact req_poll_mirror_refuted_w. Qed.
 Print Assumptions req_poll_mirror_refuted.
-Theorem req_poll_mirror_repaired_partial :      (* PARTIAL: the witness history only; the mirror invariant is not proved for all histories *)
+Theorem req_poll_mirror_repaired_witness :
   let s := fst (req_run fx_repaired req_init w_rdpoll) in poll_r (req_poll s) = Some false.
 Proof. exact req_poll_mirror_repaired_w. Qed.
-Print Assumptions req_poll_mirror_repaired_partial.
+Print Assumptions req_poll_mirror_repaired_witness.
+(* ... and over ALL reachable states of the repaired model (fx_rdclr = true): the mirror clause of C15 in the
+   uniform interface of Proto/PollModel.v (would succeed => descriptor raised; raised => not NNG_EAGAIN), both
+   descriptors; the invariant is PollReq.RInv (proved there, restated here because the clause is C04's too) *)
+Theorem req_poll_mirror_holds : forall fx, fx_rdclr fx = true -> PollModel.C15_mirror (PollReq.M_req fx).
+Proof. exact PollReq.req_c15_mirror. Qed.
+Print Assumptions req_poll_mirror_holds.
 
 (* ---- REP ---- *)
 (* TranSend p x out of rep0_ctx_send only with p = origin pipe and header =
